@@ -104,3 +104,80 @@ Proof.
   induction Hs; cbn [until_nul]; auto.
   replace (x =? 0) with false by lia. f_equal. apply IHHs. cbn [length] in Hl. lia.
 Qed.
+
+(* ---- the documented widening is exact up to 2^53 ---- *)
+Lemma f64_of_N_exact m : 0 < m < 2 ^ 53 ->
+  f64_fields (f64_of_N m) = (false, m * 2 ^ (52 - N.log2 m), (Z.of_N (N.log2 m) - 52)%Z).
+Proof.
+  intros [Hm0 Hm]. unfold f64_of_N.
+  replace (m =? 0) with false by lia.
+  pose proof (N.log2_spec m Hm0) as [Hlo Hhi].
+  set (l := N.log2 m) in *.
+  assert (Hl : l <= 52).
+  { destruct (N.le_gt_cases l 52); auto. exfalso.
+    assert (2 ^ 53 <= 2 ^ l) by (apply N.pow_le_mono_r; lia). lia. }
+  replace (l <=? 52) with true by lia.
+  assert (HP : 2 ^ l * 2 ^ (52 - l) = 2 ^ 52) by (rewrite <- N.pow_add_r; f_equal; lia).
+  assert (HS : 2 ^ N.succ l = 2 * 2 ^ l) by apply N.pow_succ_r'.
+  assert (Hq : 0 < 2 ^ (52 - l)) by (apply N.neq_0_lt_0, N.pow_nonzero; lia).
+  set (q := 2 ^ (52 - l)) in *. set (pl := 2 ^ l) in *.
+  assert (H1 : 2 ^ 52 <= m * q) by nia.
+  assert (H2 : m * q < 2 * 2 ^ 52) by nia.
+  set (P := 2 ^ 52) in *.
+  unfold f64_fields.
+  set (bits := (1023 + l) * P + (m * q - P)).
+  assert (Hdiv : bits / P = 1023 + l).
+  { unfold bits. rewrite N.add_comm. rewrite N.div_add by lia. rewrite N.div_small by lia. lia. }
+  assert (Hmod : bits mod P = m * q - P).
+  { unfold bits. rewrite N.add_comm. rewrite N.mod_add by lia. apply N.mod_small. lia. }
+  assert (H63 : bits / 2 ^ 63 = 0).
+  { apply N.div_small. change (2 ^ 63) with (2048 * 2 ^ 52). fold P. unfold bits. nia. }
+  change (2 ^ 52) with P.
+  rewrite H63, Hdiv, Hmod. cbn [N.eqb negb].
+  rewrite N.mod_small by lia.
+  replace (1023 + l =? 0) with false by lia.
+  f_equal; [f_equal; lia | lia].
+Qed.
+
+Lemma f64_of_Z_exact z : (0 < Z.abs z < 2 ^ 53)%Z ->
+  f64_fields (f64_of_Z z)
+  = ((z <? 0)%Z, Z.to_N (Z.abs z) * 2 ^ (52 - N.log2 (Z.to_N (Z.abs z))),
+     (Z.of_N (N.log2 (Z.to_N (Z.abs z))) - 52)%Z).
+Proof.
+  intros H. unfold f64_of_Z.
+  assert (Hm : 0 < Z.to_N (Z.abs z) < 2 ^ 53).
+  { change (2 ^ 53) with (Z.to_N (2 ^ 53)). lia. }
+  pose proof (f64_of_N_exact _ Hm) as E.
+  destruct (z <? 0)%Z eqn:Ez.
+  - replace (Z.to_N (- z)) with (Z.to_N (Z.abs z)) by lia.
+    (* adding the sign bit only changes the sign field *)
+    revert E. set (m := Z.to_N (Z.abs z)). intros E.
+    assert (Hb : f64_of_N m < 2 ^ 63).
+    { clear E. unfold f64_of_N. replace (m =? 0) with false by lia.
+      pose proof (N.log2_spec m ltac:(lia)) as [Hlo Hhi].
+      set (l := N.log2 m) in *.
+      assert (Hl : l <= 52).
+      { destruct (N.le_gt_cases l 52); auto. exfalso.
+        assert (2 ^ 53 <= 2 ^ l) by (apply N.pow_le_mono_r; lia). lia. }
+      replace (l <=? 52) with true by lia.
+      assert (HP : 2 ^ l * 2 ^ (52 - l) = 2 ^ 52) by (rewrite <- N.pow_add_r; f_equal; lia).
+      assert (HS : 2 ^ N.succ l = 2 * 2 ^ l) by apply N.pow_succ_r'.
+      set (q := 2 ^ (52 - l)) in *. set (pl := 2 ^ l) in *.
+      change (2 ^ 63) with (2048 * 2 ^ 52). set (P := 2 ^ 52) in *. nia. }
+    unfold f64_fields in *.
+    set (b := f64_of_N m) in *.
+    assert (E63 : (2 ^ 63 + b) / 2 ^ 63 = 1).
+    { replace (2 ^ 63 + b) with (b + 1 * 2 ^ 63) by lia. rewrite N.div_add by (apply N.pow_nonzero; lia).
+      rewrite N.div_small by lia. reflexivity. }
+    assert (E63' : b / 2 ^ 63 = 0) by (apply N.div_small; lia).
+    assert (E52 : (2 ^ 63 + b) / 2 ^ 52 = 2048 + b / 2 ^ 52).
+    { change (2 ^ 63) with (2048 * 2 ^ 52). rewrite N.add_comm, N.div_add by (apply N.pow_nonzero; lia). lia. }
+    assert (Em : (2 ^ 63 + b) mod 2 ^ 52 = b mod 2 ^ 52).
+    { change (2 ^ 63) with (2048 * 2 ^ 52). rewrite N.add_comm, N.mod_add by (apply N.pow_nonzero; lia). reflexivity. }
+    rewrite E63, E52, Em. rewrite E63' in E.
+    replace ((2048 + b / 2 ^ 52) mod 2048) with ((b / 2 ^ 52) mod 2048).
+    2:{ replace (2048 + b / 2 ^ 52) with (b / 2 ^ 52 + 1 * 2048) by lia. rewrite N.mod_add by lia. reflexivity. }
+    cbn [N.eqb negb] in *.
+    destruct ((b / 2 ^ 52) mod 2048 =? 0); inversion E; subst; reflexivity.
+  - replace (Z.to_N z) with (Z.to_N (Z.abs z)) by lia. exact E.
+Qed.
